@@ -177,6 +177,13 @@ Proof.
 Qed.
 Print Assumptions producers_valid.
 
+(* dns.wire.Parser.get_name(origin): decode, then relativize *)
+Theorem parser_get_name_valid : forall (wire : list Z) (start : nat) (origin : option name),
+  match parser_get_name wire start origin with
+  | Ok (n, _) => Valid n | Lib _ => True | Internal _ => False end.
+Proof. exact NameProducers.parser_get_name_good. Qed.
+Print Assumptions parser_get_name_valid.
+
 (* ---- compression: Name.to_wire(file, table, origin, canonicalize) ---- *)
 (* For every message prefix `file`, every table that is sound for it (each offset <= 0x3FFF and
    from_wire at that offset yields a name equal to the key), every valid name and origin:
